@@ -217,8 +217,9 @@ func (e *Executor) proposalBatches(proposals []*proposal.Proposal) ([]*Batch, er
 		} else {
 			propGasLimit = e.transferGasCost
 		}
-		currentBatch.gasLimit += propGasLimit
-		if currentBatch.gasLimit >= e.transactionMaxGas {
+		// start a new batch before adding the proposal, so that every batch
+		// carries the gas of its own proposals only
+		if len(currentBatch.proposals) > 0 && currentBatch.gasLimit+propGasLimit >= e.transactionMaxGas {
 			currentBatch = &Batch{
 				proposals: make([]*transfer.TransferProposal, 0),
 				gasLimit:  0,
@@ -226,6 +227,7 @@ func (e *Executor) proposalBatches(proposals []*proposal.Proposal) ([]*Batch, er
 			batches = append(batches, currentBatch)
 		}
 
+		currentBatch.gasLimit += propGasLimit
 		currentBatch.proposals = append(currentBatch.proposals, transferProposal)
 	}
 
